@@ -72,6 +72,19 @@ CHECKS.update({
             "DESIGN.md §3 C03"),
 })
 
+CHECKS.update({
+    "C18": ("exploration",
+            "exhaustive enumeration of the discrete configuration grid x delivery channel against a one-directional oracle",
+            "The complete cross product of the 11 safety-relevant settings (72,576 rows: environment incl. case/whitespace variants x fsync x snapshot interval x recovery mode x cache strategy x auth x rate limit x observability auth x fresh-start x TLS x 7 bind hosts) is loaded through the real KyroDbConfig::load from generated TOML files (complete in both tiers), YAML files and a seeded per-setting mix of file / KYRODB__ environment override / default (complete in thorough, seeded slices in quick). If load returns Ok for a production/pilot row, every safety condition of the property must hold for the intended values.",
+            "One-directional, as the property: nothing is asserted about rejected rows. The server binary's refusal to start on a rejected configuration is exercised by the server driver rows. The environment channel is process-global and runs single-threaded.",
+            "DESIGN.md §3 C18"),
+    "C19": ("exploration",
+            "property-based testing on the real clock with bounds that time can only loosen; clock-free rules on sequential scripts",
+            "Generated (rate, global rate, tenants, threads, call/gap script) cases against RateLimiter: for every window of calls, admitted <= burst + rate x (caller-clock interval from before the first to after the last call) + 1, per tenant and globally, also with 2-8 real threads; on sequential scripts additionally: a global refusal leaves the tenant's tokens unchanged, and no call is refused while the tenant's admitted count is below its rate and the global budget has room. ~5 % of the cases are a scripted drain / refused-hammer / 1.1 s idle / burst pattern.",
+            "Concurrency uses the OS schedule (the bound is sound for every schedule). The server-level max_qps row is part of the server driver.",
+            "DESIGN.md §3 C19"),
+})
+
 NOT_APPLICABLE = {
 }
 
